@@ -67,7 +67,7 @@ PROPS = {
    'runs': locking('C14', blocks=18),
    'monitor_props': ['C14'],
    'rule': LOCKING_RULE + '; signing windows 3..8 with max-missed 1..window-1, evidence ages straddling both limits',
-   'partial': 'permanence of zero power / non-membership for tombstoned validators is covered by C13 invariants (see DESIGN.md)',
+   'partial': '',
    'assumptions': ['slash fractions lie in (0,1) (Params.Validate)'],
  },
  'C03': {'runs': bridge('C03'), 'monitor_props': ['C03'], 'rule': BRIDGE_RULE, 'assumptions': SYMBOLIC + ['bitcoin transaction parsing is btcd (trusted dependency): the harness passes the strictly parsed outputs to the model', 'hash160 and the taproot tweak are data supplied by the harness (computed with the real libraries)']},
